@@ -5,6 +5,9 @@ Driver for C05: trace acceptor. A case is
 
     scn n=<modules> deps=<d0;d1;…> <scenario json (ignored here)>
     e <mod> <act> [args…] g<goroutine> @<µs>      one atomic protocol event recorded on the real code
+                                                    (`workEnter <c> <exec> gen=<k>` / `ctxObs <c> <exec> gen=<k> …`: the
+                                                    context held is the module's k-th; `gen=?` = not a context of the
+                                                    module that the harness saw being installed ⇒ rejected)
     p stopBegin | stopEnd | startBegin | startEnd   manager pass events
     h …                                             harness-level observation (no model step)
     x <e|p line>  …  xend                           a deliberately corrupted trace: must be rejected somewhere
@@ -61,6 +64,11 @@ def parseKind : String → Option Kind
 
 def parseBool : String → Option Bool
   | "1" => some true | "0" => some false | _ => none
+
+/-- the `gen=<k>` argument of a context observation -/
+def parseGen : List String → Option Nat
+  | [] => none
+  | w :: ws => if w.startsWith "gen=" then (w.drop 4).toString.toNat? else parseGen ws
 
 def isGid (w : String) : Bool :=
   w.length ≥ 2 && w.front == 'g' && (w.drop 1).toString.all Char.isDigit
@@ -160,24 +168,34 @@ def doEvent (d : DS) (i : Nat) (act : String) (args : List String) (g : Nat) : E
     let late := modFlag d.sys i == 1
     let S' ← stepSys .swReturn
     pure { d with sys := S', sws := { gid := g, mod := i, late := late } :: d.sws }
-  | "workEnter", c :: _ =>
-    match parseBool c with
-    | none => .error "workEnter: bad flag"
-    | some cb =>
+  | "workEnter", c :: rest =>
+    match parseBool c, parseGen rest with
+    | none, _ => .error "workEnter: bad flag"
+    | _, none => .error "workEnter: the context handed to the function is not one the module was seen installing"
+    | some cb, some gn =>
       -- the same goroutine enters its function again: a service worker re-run
       match takeSw g i d.sws with
       | none =>
-        let S' ← stepSys (.workEnter cb)
-        pure { d with sys := S' }
+        match sstep d.sys (.mod i (.workEnter gn cb)) with
+        | some S' => pure { d with sys := S' }
+        | none => .error s!"workEnter: context {gn} observed cancelled={cb}: not what the model has"
       | some (late, sws') =>
         if late then .error "workEnter: service worker re-run although its function returned while the module was stopping"
         else
           match sstep d.sys (.mod i .swRerun) with
           | none => .error "workEnter: service worker re-run not enabled"
           | some S1 =>
-            match sstep S1 (.mod i (.workEnter cb)) with
-            | none => .error "workEnter: not enabled"
+            match sstep S1 (.mod i (.workEnter gn cb)) with
+            | none => .error s!"workEnter: context {gn} observed cancelled={cb}: not what the model has"
             | some S' => pure { d with sys := S', sws := sws' }
+  | "ctxObs", c :: rest =>
+    match parseBool c, parseGen rest with
+    | none, _ => .error "ctxObs: bad flag"
+    | _, none => .error "ctxObs: the context held is not one the module was seen installing"
+    | some cb, some gn =>
+      match sstep d.sys (.mod i (.ctxObs gn cb)) with
+      | some S' => pure { d with sys := S' }
+      | none => .error s!"ctxObs: context {gn} observed cancelled={cb}: not what the model has"
   | "ctrlUnset", _ =>
     let S' ← stepSys .ctrlUnset
     pure { d with sys := S', chks := { gid := g, mod := i, pos := 0 } :: d.chks }
@@ -188,6 +206,9 @@ def doEvent (d : DS) (i : Nat) (act : String) (args : List String) (g : Nat) : E
     let a? : Option Act :=
       match act, args with
       | "startBegin", _ => some .startBegin
+      | "prepBegin", _ => some .prepBegin
+      | "prepDone", _ => some .prepDone
+      | "startFail", _ => some .startFail
       | "ctrlSet", _ => some .ctrlSet
       | "fnEnter", c :: _ => (parseBool c).map .fnEnter
       | "fnExit", _ => some .fnExit
@@ -199,7 +220,6 @@ def doEvent (d : DS) (i : Nat) (act : String) (args : List String) (g : Nat) : E
       | "sTimeout", _ => some .sTimeout
       | "sOffline", _ => some .sOffline
       | "sReport", _ => some .sReport
-      | "workEnter", c :: _ => (parseBool c).map .workEnter
       | "gate", c :: _ => (parseBool c).map .gate
       | "cFast", c :: _ => (parseBool c).map .cFast
       | "cLock", _ => some .cLock
